@@ -277,6 +277,8 @@ class Client:
         :return: transformed script as bytes
         """
         bcontent: bytes = content.encode("utf-8")
+        if b"\0" in bcontent:
+            raise Error("NUL is not allowed in a script")
         return LiteralBytes(b"{%d+}%s%s" % (len(bcontent), CRLF, bcontent))
 
     def __send_command(
